@@ -17,7 +17,7 @@ def obligations(tier):
     obs = []
     g4 = S.G4()
     for k in ((1, 2) if q else (1, 2, 3)):
-        obs.append(S.SOb('C12.labels[G4,n=2,tags=2,nbest=%d]' % k, g4, 2, pruning=2, penalty='sym', nbest=k))
+        obs.append(S.SOb('C12.labels[G4,n=2,tags=2,nbest=%d]' % k, g4, 2, ([(1, 0)] if (q and k > 1) else ()), pruning=2, penalty='sym', nbest=k))
     obs.append(S.SOb('C12.labels[G2,n=3,tags=1]', S.G1(False), 3, S.one_tag(3, 3), pruning=1, penalty='0'))
     obs.append(S.SOb('C12.labels[G5r,n=2,tags=2,nbest=2]', S.G5(False), 2, pruning=2, penalty='0', nbest=2))
     obs.append(S.SOb('C12.labels[G3c,n=2,tags=1]', S.G3(True), 2, S.one_tag(2, 2), pruning=1, penalty='sym'))
@@ -129,7 +129,8 @@ def main(tier):
     from lib import framework
     rc1 = S.run_search_check('C12', tier, obligations(tier), ('C12.',), FUNCTIONS, BOUNDS[tier], OUTSIDE, ASSUMPTIONS,
                              records_for_validation=True, record_every=1)
-    parser_side = json.load(open(os.path.join(framework.VERIF, 'evidence', 'C12.json')))
+    EVD = os.environ.get('VERIF_EVIDENCE_DIR') or os.path.join(framework.VERIF, 'evidence')
+    parser_side = json.load(open(os.path.join(EVD, 'C12.json')))
     mod = sys.modules[__name__]
     mod.obligations_search = obligations
     saved = mod.obligations
@@ -140,7 +141,7 @@ def main(tier):
     finally:
         mod.obligations = saved
     # merged evidence: states/transitions of both halves
-    p = os.path.join(framework.VERIF, 'evidence', 'C12.json')
+    p = os.path.join(EVD, 'C12.json')
     ev = json.load(open(p))
     ps = parser_side['coverage']
     for k in ('states', 'transitions', 'traces_validated_against_impl', 'evaluations', 'distinct_nontrivial', 'obligations', 'discharged', 'solver_queries'):
